@@ -307,6 +307,17 @@ def path_origins(body, blocks, local, upto, depth=0):
         return path_origins(body, blocks, rv["op"]["place"]["local"], i, depth + 1)
     if rv["k"] == "unop" and rv["op"] == "Not" and rv["a"]["k"] in ("copy", "move") and not [p for p in rv["a"]["place"]["proj"] if p["k"] != "deref"]:
         return [("not", tuple(path_origins(body, blocks, rv["a"]["place"]["local"], i, depth + 1)))]
+    # `(poll as Ready).0` where, on this path, the poll local was last assigned `Poll::Ready(v)` by a spliced-in async body: follow v
+    if rv["k"] == "use" and rv["op"]["k"] in ("copy", "move"):
+        pj = [p for p in rv["op"]["place"]["proj"] if p["k"] != "deref"]
+        if len(pj) == 2 and pj[0]["k"] == "downcast" and pj[0]["variant"] == "Ready" and pj[1]["k"] == "field":
+            d2 = _last_def_on_path(body, blocks, rv["op"]["place"]["local"], i)
+            if d2 and d2[0] == "assign" and d2[1]["rv"]["k"] == "agg" and d2[1]["rv"].get("adt") == "std::task::Poll" and d2[1]["rv"]["ops"]:
+                o = d2[1]["rv"]["ops"][0]
+                if o["k"] == "const":
+                    return [("const", o["val"])]
+                if not [p for p in o["place"]["proj"] if p["k"] != "deref"]:
+                    return path_origins(body, blocks, o["place"]["local"], d2[2], depth + 1)
     return rv_origins(body, rv, blocks[i], x) or [("expr", blocks[i])]
 
 
@@ -468,7 +479,8 @@ def body_line(e):
 
 def paths_within(body, region, target, limit=5000):
     """acyclic paths that stay inside `region`, from the region's entry blocks to block `target`"""
-    entries = sorted({e.dst for e in body.edges if e.dst in region and e.src not in region})
+    live = body.reachable_blocks()
+    entries = sorted({e.dst for e in body.edges if e.dst in region and e.src not in region and e.src in live})
     out = []
 
     def walk(bb, path, seen):
